@@ -73,6 +73,7 @@ func captureCorpus(thorough bool) []wireBody {
 		{"zero-messages", KServer, CompNone, []int{0}, []int{}, false, true},
 		{"error-end", KServer, CompNone, []int{3}, []int{5}, true, true},
 		{"gzip", KServer, CompSendGzip, []int{40}, []int{40, 3}, false, false},
+		{"unary-gzip", KUnary, CompSendGzip, []int{2000}, []int{2000}, false, false},
 		{"client-a-z-b", KClient, CompNone, []int{3, 0, 4}, []int{3}, false, false},
 		{"client-none", KClient, CompNone, []int{}, []int{3}, false, false},
 		{"client-gzip", KClient, CompSendGzip, []int{40, 0}, []int{0}, false, false},
@@ -134,7 +135,7 @@ func captureCorpus(thorough bool) []wireBody {
 				if sc.kind != KClient {
 					out = append(out, wireBody{Name: sc.name, Proto: p, Kind: sc.kind, JSON: js, Status: ex.Status, Header: ex.RespHeader.Clone(), Body: cloneBytes(ex.RespBody), Trailer: ex.RespTrail.Clone()})
 				}
-				if sc.kind == KClient || sc.name == "one" || sc.name == "gzip" {
+				if sc.kind == KClient || sc.name == "one" || sc.name == "gzip" || sc.name == "unary-gzip" {
 					out = append(out, wireBody{Name: sc.name, Proto: p, Kind: sc.kind, JSON: js, Request: true, Header: ex.ReqHeader.Clone(), Body: cloneBytes(ex.ReqBody)})
 				}
 			}
